@@ -27,6 +27,13 @@ ASSUMPTIONS = [
 ]
 
 KEYS = ['x', 'y']
+
+
+class _Unbindable:
+    """A tag SQLite cannot bind: the row write raises after the value file was created."""
+
+
+UNBINDABLE = _Unbindable()
 FINAL_OPS = [('get', 'x'), ('get', 'y'), ('get', 'n'), ('len',), ('getexp', 'x'), ('getexp', 'y'), ('getexp', 'n'), ('list',)]
 MISS = 'MISS'
 WRITES = {'set', 'add', 'incr', 'decr', 'pop', 'delete', 'setitem'}
@@ -42,6 +49,7 @@ def op_strategy(client, idx):
         st.tuples(st.just('set'), k, v),
         st.tuples(st.just('add'), k, v),
         st.tuples(st.just('add'), k, v),
+        st.tuples(st.just('setbad'), k, filev),  # fails inside its transaction after the value file was written: must change nothing
         st.tuples(st.just('get'), k),
         st.tuples(st.just('get'), k),
         st.tuples(st.just('getitem'), k),
@@ -84,11 +92,11 @@ def program_case(draw, max_clients=4, max_calls=4):
         # row up before taking the lock may hit a different key afterwards
         victim = draw(st.sampled_from(['x', 'y']))
         other = 'y' if victim == 'x' else 'x'
-        first = draw(st.sampled_from([('touch', victim, 1000), ('touch', victim), ('pop', victim), ('delete', victim), ('incr', victim, 1), ('set', victim, ('s', 'c0.0')), ('get', victim)]))
+        first = draw(st.sampled_from([('touch', victim, 1000), ('touch', victim), ('pop', victim), ('delete', victim), ('set', victim, ('s', 'c0.0')), ('get', victim), ('getexp', victim)]))
         second = [draw(st.sampled_from([('delete', victim), ('pop', victim)])), draw(st.sampled_from([('set', other, ('s', 'c1.1')), ('add', other, ('B', 18, 100)), ('incr', 'n', 1)]))]
         progs = [[first], second] + progs[2:]
         init = {k: v for k, v in init.items() if k not in (victim, other)}
-        init[victim] = draw(st.sampled_from([('i', 5), ('s', 'init-v')])) if first[0] != 'incr' else ('i', 5)  # inserted last: highest rowid
+        init[victim] = draw(st.sampled_from([('s', 'init-w'), ('s', 'init-v')]))  # inserted last: highest rowid
     return {
         'mode': draw(st.sampled_from(['own', 'own', 'shared'])),
         'statistics': draw(st.booleans()),
@@ -126,6 +134,8 @@ def do_op(cache, op):
             return ('ok', cache.set(op[1], mk(op[2]), retry=True))
         if name == 'add':
             return ('ok', cache.add(op[1], mk(op[2]), retry=True))
+        if name == 'setbad':
+            return ('ok', cache.set(op[1], mk(op[2]), tag=UNBINDABLE, retry=True))
         if name == 'get':
             r = cache.get(op[1], default=MISS, retry=True)
             return ('ok', MISS if r is MISS or r == MISS else unmk(r))
@@ -165,6 +175,8 @@ def model_apply(state, call):
     if res == ('exc', 'Timeout'):
         return state, True  # not applied
     k = op[1] if len(op) > 1 else None
+    if name == 'setbad':
+        return state, res[0] == 'exc'  # rejected: no effect
     if name == 'set':
         d[k] = (op[2], False)
         exp = ('ok', True)
@@ -222,6 +234,10 @@ def check_history(calls, init_state, pid='C05'):
     scans = [c for c in calls if c.op[0] == 'list']
     lin = [c for c in calls if c.op[0] != 'list']
     for c in lin:
+        if c.op[0] == 'setbad':
+            if c.result[0] != 'exc':
+                raise Violation('%s/unbindable-tag-accepted' % pid, 'call %r' % (c,))
+            continue
         if c.result[0] == 'exc' and c.result[1] not in ('KeyError', 'Timeout'):
             raise Violation('%s/unexpected-exception/%s' % (pid, c.result[1]), 'call %r raised %s' % (c, c.result[1]))
         if c.result[0] == 'ok' and type(c.result[1]) is tuple and c.result[1] and c.result[1][0] == 'MIXED':
